@@ -155,7 +155,8 @@ Section Jws.
         let fb := extract_b64 (oview p0) in
         let me := encode_if_b64 payload p0 in
         if negb (forallb (fun r => let '(p, u, _) := r in enc_add_recipient fb (oview p) (oview u)) rs) then Err JErr else
-        if negb detached && negb (utf8 me) then Err JErr else
+        (* from_utf8 of the partially processed payload: base64url text is ASCII, so only a raw payload can fail *)
+        if negb detached && negb (fb || utf8 payload) then Err JErr else
         Ok (if detached then None else Some me,
             map (fun r => let '(p, u, sg) := r in
                    {| e_payload := None;
